@@ -21,9 +21,11 @@ import (
 	"sync"
 
 	"github.com/dcaiafa/lox/internal/ast"
+	"github.com/dcaiafa/lox/internal/base/array"
 	"github.com/dcaiafa/lox/internal/base/errlogger"
 	"github.com/dcaiafa/lox/internal/lexergen/dfa"
 	"github.com/dcaiafa/lox/internal/lexergen/mode"
+	"github.com/dcaiafa/lox/internal/lexergen/nfa"
 	"github.com/dcaiafa/lox/internal/lexergen/rang3"
 	"github.com/dcaiafa/lox/internal/parser"
 	"github.com/dcaiafa/lox/internal/parsergen/lr1"
@@ -61,12 +63,28 @@ type DState struct {
 	Trans     [][3]int   `json:"trans"` // [lo, hi, target]
 	Actions   [][2]int   `json:"actions"`
 	ActModes  []string   `json:"actmodes"`
+	NFA       []int      `json:"nfa"`    // IDs of the NFA states this DFA state stands for
+	Pos       int        `json:"pos"`    // source position of the picked action list (-1: none)
+}
+
+// NState is one state of the (input-normalised) NFA a mode's DFA was built from.
+type NState struct {
+	ID     int      `json:"id"`
+	Accept bool     `json:"accept"`
+	NG     bool     `json:"ng"`
+	HasAct bool     `json:"hasact"`
+	Pos    int      `json:"pos"`
+	Acts   [][2]int `json:"acts"`
+	Modes  []string `json:"actmodes"`
+	Eps    []int    `json:"eps"`
+	Edges  [][3]int `json:"edges"` // [lo, hi, to]
 }
 
 type Mode struct {
 	Name   string   `json:"name"`
 	Index  int      `json:"index"`
 	States []DState `json:"states"`
+	NFA    []NState `json:"nfastates"`
 }
 
 type Out struct {
@@ -108,6 +126,42 @@ func symOf(t lr1.Term) Sym {
 		return Sym{0, t.Index}
 	}
 	return Sym{-1, -1}
+}
+
+// walkNFA lists every NFA state reachable from the given ones.
+func walkNFA(pending []*nfa.State) []NState {
+	seen := map[*nfa.State]bool{}
+	out := []NState{}
+	for len(pending) > 0 {
+		s := pending[len(pending)-1]
+		pending = pending[:len(pending)-1]
+		if seen[s] {
+			continue
+		}
+		seen[s] = true
+		ns := NState{ID: int(s.ID), Accept: s.Accept, NG: s.NonGreedy, Pos: -1, Acts: [][2]int{}, Modes: []string{}, Eps: []int{}, Edges: [][3]int{}}
+		if acts, ok := s.Data.(*mode.Actions); ok && acts != nil {
+			ns.HasAct = true
+			ns.Pos = int(acts.Pos)
+			for _, a := range acts.Actions {
+				ns.Acts = append(ns.Acts, [2]int{int(a.Type), a.Terminal})
+				ns.Modes = append(ns.Modes, a.Mode)
+			}
+		}
+		s.Transitions.ForEach(func(in any, tos *array.Array[*nfa.State]) {
+			for _, to := range tos.Elements() {
+				pending = append(pending, to)
+				if r, ok := in.(rang3.Range); ok {
+					ns.Edges = append(ns.Edges, [3]int{int(r.B), int(r.E), int(to.ID)})
+				} else {
+					ns.Eps = append(ns.Eps, int(to.ID))
+				}
+			}
+		})
+		out = append(out, ns)
+	}
+	sort.Slice(out, func(i, j int) bool { return out[i].ID < out[j].ID })
+	return out
 }
 
 func dumpOne(dir string, lalr bool) (out Out) {
@@ -178,14 +232,20 @@ func dumpOne(dir string, lalr bool) (out Out) {
 			continue
 		}
 		mm := Mode{Name: n, Index: m.Index}
+		var nfaPending []*nfa.State
 		for _, s := range m.DFA.States {
-			ds := DState{Accept: s.Accept, NonGreedy: s.NonGreedy, Trans: [][3]int{}, Actions: [][2]int{}, ActModes: []string{}}
+			ds := DState{Accept: s.Accept, NonGreedy: s.NonGreedy, Trans: [][3]int{}, Actions: [][2]int{}, ActModes: []string{}, NFA: []int{}, Pos: -1}
+			for _, ns := range s.NFAStates {
+				ds.NFA = append(ds.NFA, int(ns.ID))
+				nfaPending = append(nfaPending, ns)
+			}
 			s.Transitions.ForEach(func(in any, to *dfa.State) {
 				r := in.(rang3.Range)
 				ds.Trans = append(ds.Trans, [3]int{int(r.B), int(r.E), int(to.ID)})
 			})
 			sort.Slice(ds.Trans, func(i, j int) bool { return ds.Trans[i][0] < ds.Trans[j][0] })
 			if acts, ok := s.Data.(*mode.Actions); ok && acts != nil {
+				ds.Pos = int(acts.Pos)
 				for _, a := range acts.Actions {
 					ds.Actions = append(ds.Actions, [2]int{int(a.Type), a.Terminal})
 					ds.ActModes = append(ds.ActModes, a.Mode)
@@ -193,6 +253,7 @@ func dumpOne(dir string, lalr bool) (out Out) {
 			}
 			mm.States = append(mm.States, ds)
 		}
+		mm.NFA = walkNFA(nfaPending)
 		out.Modes = append(out.Modes, mm)
 	}
 	if !lalr || out.NoParser {
